@@ -3,15 +3,13 @@
 package transmit
 
 import (
-	"github.com/tinylib/msgp/msgp"
-
 	"github.com/honeycombio/refinery/types"
 )
 
 // VerifEncodingPackBatch is the body DirectTransmission.sendBatch posts to a peer's /1/batch for
 // a batch holding just ev: array header + the real batchedEvent.MarshalMsg (which uses the real
-// Payload.MarshalMsg).  Unexported names touched: batchedEvent (+ its fields and MarshalMsg).
+// Payload.MarshalMsg).  It is taken from sendBatch itself (VerifTransmitPackOne), so that neither
+// batchedEvent nor its fields are named here.
 func VerifEncodingPackBatch(ev *types.Event) ([]byte, error) {
-	be := batchedEvent{time: ev.Timestamp, sampleRate: int64(ev.SampleRate), data: ev.Data}
-	return be.MarshalMsg(msgp.AppendArrayHeader(nil, 1))
+	return VerifTransmitPackOne(ev)
 }
